@@ -1,7 +1,7 @@
-(* C17 -- property theorems only.  Proofs live in C17/Proofs.v. *)
+(* C17 -- property theorems only.  Proofs live in C17/Proofs.v and C17/ProofsW.v. *)
 From Coq Require Import NArith Bool ZArith.
 Local Open Scope bool_scope.
-From DV Require Import Base.Outcome C17.Gen C17.Model C17.Proofs.
+From DV Require Import Base.Outcome C17.Gen C17.Model C17.Proofs C17.ProofsW.
 Local Open Scope N_scope.
 
 Theorem C17_add_gt : forall a n, u32 a -> 1 <= n <= 2147483647 ->
@@ -112,3 +112,86 @@ Print Assumptions C17_commit_same_soa_bumps.
 Theorem C17_commit_keeps_written_soa : forall old z, z <> old -> commit_serial old (Some z) = Ok z.
 Proof. exact commit_keeps_written_soa. Qed.
 Print Assumptions C17_commit_keeps_written_soa.
+
+Theorem C17_cmp_swap_mirrors : forall a b, u32 a -> u32 b ->
+  exists o, serial_partial_cmp a b = Ok o /\ serial_partial_cmp b a = Ok (flip_cmp o).
+Proof. exact cmp_flip. Qed.
+Print Assumptions C17_cmp_swap_mirrors.
+
+Theorem C17_cmp_invariant_under_serial_add : forall a b n a' b', u32 a -> u32 b ->
+  serial_add a n = Ok a' -> serial_add b n = Ok b' ->
+  serial_partial_cmp a' b' = serial_partial_cmp a b.
+Proof. exact cmp_add_same. Qed.
+Print Assumptions C17_cmp_invariant_under_serial_add.
+
+Theorem C17_add_zero_is_identity : forall a, u32 a ->
+  serial_add a 0 = Ok a /\ serial_partial_cmp a a = Ok (Some Eq).
+Proof. exact add_zero. Qed.
+Print Assumptions C17_add_zero_is_identity.
+
+Theorem C17_add_composes : forall a n m, n + m <= 2147483647 ->
+  exists s, serial_add a n = Ok s /\ serial_add s m = serial_add a (n + m).
+Proof. exact add_add. Qed.
+Print Assumptions C17_add_composes.
+
+Theorem C17_lt_chain_classified : forall a b c, u32 a -> u32 b -> u32 c ->
+  serial_partial_cmp a b = Ok (Some Lt) -> serial_partial_cmp b c = Ok (Some Lt) ->
+  serial_partial_cmp a c = Ok (classify (wdiff a b + wdiff b c)).
+Proof. exact lt_lt_classified. Qed.
+Print Assumptions C17_lt_chain_classified.
+
+Theorem C17_lt_transitive_iff_sum_below_2_31 : forall a b c, u32 a -> u32 b -> u32 c ->
+  serial_partial_cmp a b = Ok (Some Lt) -> serial_partial_cmp b c = Ok (Some Lt) ->
+  (serial_partial_cmp a c = Ok (Some Lt) <-> wdiff a b + wdiff b c < 2147483648).
+Proof. exact lt_trans_bounded. Qed.
+Print Assumptions C17_lt_transitive_iff_sum_below_2_31.
+
+Theorem C17_lt_not_transitive_in_general : exists a b c, u32 a /\ u32 b /\ u32 c /\
+  serial_partial_cmp a b = Ok (Some Lt) /\ serial_partial_cmp b c = Ok (Some Lt) /\
+  serial_partial_cmp a c = Ok (Some Gt).
+Proof. exact lt_not_transitive. Qed.
+Print Assumptions C17_lt_not_transitive_in_general.
+
+Theorem C17_derived_operators_consistent : forall a b, u32 a -> u32 b ->
+  serial_le a b = serial_ge b a /\
+  serial_lt a b = serial_le a b && negb (a =? b) /\
+  ((serial_le a b = false /\ serial_ge a b = false) <-> serial_partial_cmp a b = Ok None).
+Proof. exact ops_consistent. Qed.
+Print Assumptions C17_derived_operators_consistent.
+
+Theorem C17_diff_range_rejected_iff : forall s e, u32 s -> u32 e ->
+  diff_range_rejected s e = (wdiff s e =? 0) || (2147483648 <? wdiff s e).
+Proof. exact diff_range_spec. Qed.
+Print Assumptions C17_diff_range_rejected_iff.
+
+Theorem C17_diff_range_shift_invariant : forall s e k, u32 s -> u32 e ->
+  diff_range_rejected ((s + k) mod M32) ((e + k) mod M32) = diff_range_rejected s e.
+Proof. exact diff_range_shift. Qed.
+Print Assumptions C17_diff_range_shift_invariant.
+
+Theorem C17_sig_time_window_exact : forall now i e, u32 now -> u32 i -> u32 e ->
+  wdiff i e < 2147483648 ->
+  sig_time_ok now i e = (wdiff i now <=? wdiff i e).
+Proof. exact sig_time_window_exact. Qed.
+Print Assumptions C17_sig_time_window_exact.
+
+Theorem C17_commit_always_changes_serial : forall old written, u32 old ->
+  match written with Some z => u32 z | None => True end ->
+  exists s, commit_serial old written = Ok s /\ u32 s /\ s <> old.
+Proof. exact commit_changes_serial. Qed.
+Print Assumptions C17_commit_always_changes_serial.
+
+Theorem C17_version_next_iterated_closed_form : forall k a, u32 a ->
+  next_iter k a = Ok ((a + N.of_nat k) mod M32).
+Proof. exact next_iter_closed. Qed.
+Print Assumptions C17_version_next_iterated_closed_form.
+
+Theorem C17_version_next_iterated_gt : forall k a, u32 a -> 1 <= N.of_nat k <= 2147483647 ->
+  exists s, next_iter k a = Ok s /\ serial_partial_cmp a s = Ok (Some Lt).
+Proof. exact next_iter_gt. Qed.
+Print Assumptions C17_version_next_iterated_gt.
+
+Theorem C17_version_next_2_31_times_undefined : forall k a, u32 a -> N.of_nat k = 2147483648 ->
+  exists s, next_iter k a = Ok s /\ serial_partial_cmp a s = Ok None.
+Proof. exact next_iter_half_undefined. Qed.
+Print Assumptions C17_version_next_2_31_times_undefined.
